@@ -8,6 +8,7 @@ H = "xsdata.formats.dataclass.parsers.handlers.native:XmlEventHandler"
 def register(db):
     collab.declare(db)
     register_nodes(db)
+    register_any_attribute(db)
     P = ["C09"]
     db.add(Contract(
         "xsdata.formats.dataclass.parsers.utils:ParserUtils.normalize_content",
@@ -212,4 +213,35 @@ def register_nodes(db):
         raises={"ParserError": True, "ConverterError": True, "XmlContextError": True},
         properties=["C09", "C15"],
         note="node constructors are modelled as plain records of their arguments",
+    ))
+
+
+def register_any_attribute(db):
+    """ParserUtils.parse_any_attribute: the value of a wildcard attribute is expanded to Clark notation only when it is
+    a prefixed name whose prefix is bound in the element's scope; a value without a colon is never touched - in
+    particular it is not qualified with the default namespace (C09: the parsed object does not depend on whether the
+    document uses a default namespace or prefixes)."""
+    PU = "xsdata.formats.dataclass.parsers.utils:ParserUtils"
+    db.add(Contract(
+        f"{PU}.parse_any_attribute", variant="no-prefix",
+        params={"cls": "opaque:type", "value": "str", "ns_map": NSMAP},
+        requires=["':' not in value"],
+        ensures=[("kept-as-given-whatever-the-default-namespace-is", "result == value")],
+        raises={}, returns="str", properties=["C09"],
+    ))
+    db.add(Contract(
+        f"{PU}.parse_any_attribute", variant="bound-prefix",
+        params={"cls": "opaque:type", "value": "str", "ns_map": NSMAP}, ghost={"p": "str", "l": "str"},
+        requires=["value == p + ':' + l", "':' not in p", "len(p) > 0", "len(l) > 0", "p in ns_map", "len(ns_map[p]) > 0", "l[0:2] != '//'"],
+        hints=["cut_at(p, ':', l)"],
+        ensures=[("expanded-with-the-uri-the-prefix-is-bound-to", "result == clark_build(ns_map[p], l)")],
+        raises={}, returns="str", properties=["C09"],
+    ))
+    db.add(Contract(
+        f"{PU}.parse_any_attribute", variant="unbound-prefix",
+        params={"cls": "opaque:type", "value": "str", "ns_map": NSMAP}, ghost={"p": "str", "l": "str"},
+        requires=["value == p + ':' + l", "':' not in p", "len(p) > 0", "len(l) > 0", "p not in ns_map"],
+        hints=["cut_at(p, ':', l)"],
+        ensures=[("kept-as-given", "result == value")],
+        raises={}, returns="str", properties=["C09"],
     ))
